@@ -170,7 +170,7 @@ func vRunSched(t *testing.T, prop string, profile vProfile, nQuick, nThorough in
 }
 
 func TestVerifC01(t *testing.T) {
-	vRunSched(t, "C01", vProfileC01, 400, 8000,
+	vRunSched(t, "C01", vProfileC01, 400, 40000,
 		"history i = PRNG(seed,'C01',i): 2-5 models, 1-8 client goroutines, 3-40 actions (requests with keep-alive in {0,0.2,1,5,20 ms,forever,nil}, holds, cancels before reply, scripted load ok/fail/block-until-cancel, explicit unloads, sleeps), MAX_LOADED 1-3/auto, ping failures, delays at 20 slog call sites and in mock Ping/Close/WaitUntilRunning, GOMAXPROCS in {1,2,4,8,16}. Oracle on the boundary event log: no Close between grant and release, at most one Close per runner, no grant after Close / of an unloaded runner. Non-trivial & distinct = distinct abstract order signature (collapsed sequence of grant/release/close/start/unload/fail/cancel/error kinds) of histories with more than 6 such transitions or with an explicit unload issued while a grant was outstanding",
 		func(h *vHistory, out *vOutcome) []vViol { return vCheckC01(out) })
 }
